@@ -16,7 +16,7 @@ TECHNIQUE = "property-based testing over schedules: N logical processes (threads
             "code (set_configs_directory, convert_gtf_to_db, read_mapper.store_*/find_stored_*) under a cooperative " \
             "scheduler owned by the harness that switches at every file-system step; the schedule is a " \
             "Hypothesis-drawn sequence; plus a smoke stage with real simultaneous processes"
-RULE = ("Hypothesis-drawn schedules for 2-4 logical processes sharing one HOME, each with its own output folder and a "
+RULE = ("Hypothesis-drawn schedules for 2-4 (thorough: 2-8) logical processes sharing one HOME, each with its own output folder and a "
         "tiny GTF (equal or different annotations, equal or different GTF paths); context switches at open(r), "
         "open(w) (= truncate), every write chunk of json.dump, read, close and around the database conversion; two "
         "visibility models (data visible at close / after every write). Non-trivial = a process opened a config "
@@ -265,11 +265,11 @@ def tiny_gtf(k):
 
 
 @st.composite
-def schedules(draw):
-    n = draw(st.integers(2, 4))
+def schedules(draw, max_n=4):
+    n = draw(st.integers(2, max_n))
     n_ann = draw(st.integers(1, n))
     gtf_file = [draw(st.integers(0, n_ann - 1)) for _ in range(n)]
-    sched = draw(st.lists(st.integers(0, 3), min_size=0, max_size=120))
+    sched = draw(st.lists(st.integers(0, max_n - 1), min_size=0, max_size=120 if max_n <= 4 else 240))
     return {"n": n, "gtfs": [tiny_gtf(k) for k in range(n_ann)], "gtf_file": gtf_file, "schedule": sched,
             "flush_each": draw(st.booleans())}
 
@@ -388,5 +388,6 @@ def eval_smoke(case, ctx):
 
 def stages(tier):
     q = tier == "quick"
-    return [Stage("schedules", "hyp", eval_schedule, n=1600 if q else 100000, strategy=schedules),
+    return [Stage("schedules", "hyp", eval_schedule, n=1600 if q else 100000,
+                  strategy=(lambda: schedules(4)) if q else (lambda: schedules(8))),
             Stage("smoke", "hyp", eval_smoke, n=8 if q else 64, strategy=smoke_cases, shards=4)]
